@@ -331,6 +331,16 @@ def gen_transform(parts, vec_views):
             d = "DZero"
         return kind, expr, d
 
+    # the convention of the Euler-angle form: the one string of the one Rotation.from_euler call of rotate
+    rfn = FD(tree, "rotate", TR)
+    calls = [n for n in ast.walk(rfn) if isinstance(n, ast.Call) and (T.dotted(n.func) or "").endswith("from_euler")]
+    if len(calls) != 1 or len(calls[0].args) != 2 or calls[0].keywords or not isinstance(calls[0].args[0], ast.Constant) \
+            or T.dotted(calls[0].args[1]) != "rot":
+        T.fail(TR, rfn, "rotate does not build its Euler rotation by one call Rotation.from_euler(<string>, rot)")
+    seq = {"xyz": "Fixed_xyz", "XYZ": "Moving_xyz"}.get(calls[0].args[0].value)
+    if seq is None:
+        T.fail(TR, calls[0], "Euler convention %r of rotate is not one the model knows" % (calls[0].args[0].value,))
+    out.append("Definition euler_seq : eulerseq := %s." % seq)
     k, e, d = rebinding("rotate", ["mesh", "rot", "orig"], {"rot": ("f", "rot")}, skip_preamble=True)
     out.append("Definition rotate_kind : tkind := %s." % k)
     out.append("Definition rotate_default : dorig := %s." % d)
